@@ -20,7 +20,7 @@ const W0: [f32; 6] = [0.5, -1.25, 2.0, -0.03125, 0.0, 7.0];
 pub fn meta(ctx: &Ctx) -> Meta {
     let d = depth(ctx);
     Meta {
-        rule: format!("optimizer kinds x hyper-parameter lattice (SGD 2, SGDM 8, Adam 4, AdamW 2, RMSprop 16 settings) x ALL gradient sequences over G={{0,+-1e-20,+-1e-3,+-0.5,+-1,+-1e4}} of length {} x ALL non-decreasing step-number sequences over {{1,2,3,5}} x ranks {{vector, matrix, 3-D kernel}} through create->validate->update; 18 element histories per tensor; run-length histories (constant / alternating / one-hot then zeros) to 2048 steps; slot-isolation: all 2^d interleavings of a slot-B update stream into slot A's for 4 slot pairs. Oracles: documented recurrences (f64 + f32 transcription, derived tolerance), rank differential bit-exact, isolation differential bit-exact, finiteness. A state is a node of the history tree (gradient prefix x step-number prefix); non-trivial = node whose history has a non-zero gradient", d),
+        rule: format!("optimizer kinds x hyper-parameter lattice (SGD 2, SGDM 8, Adam 4, AdamW 2, RMSprop 16 settings) x ALL gradient sequences over G={{0,+-1e-20,+-1e-3,+-0.5,+-1,+-1e4}} of length {} x ALL non-decreasing step-number sequences over {{1,2,3,5}} x ranks {{vector, matrix, 3-D kernel}} through create->validate->update; 18 element histories per tensor; run-length histories (constant / alternating / one-hot then zeros) to 2048 steps; 24-step varying-gradient histories on wide tensors (vector 70, matrix 2x35, kernel 2x5x7: row lengths that are not multiples of 4 or 8); slot-isolation: all 2^d interleavings of a slot-B update stream into slot A's for 4 slot pairs. Oracles: documented recurrences (f64 + f32 transcription, derived tolerance), rank differential bit-exact, isolation differential bit-exact, finiteness. A state is a node of the history tree (gradient prefix x step-number prefix); non-trivial = node whose history has a non-zero gradient", d),
         bound: format!("history depth {} complete for the alphabet; long histories 2048 steps for 33 patterns per setting", d),
         exhaustive: true,
         assumptions: vec![
@@ -334,6 +334,64 @@ fn long_histories(spec: &OptSpec, n_steps: usize, rep: &mut Report) {
     }
 }
 
+/// Wide parameter tensors (beyond any small unrolling / blocking factor): vector of 70, matrix 2x35,
+/// kernel 2x5x7; 24 steps with a different pseudo-random gradient from G per element and step; documented recurrence
+/// per element and rank differential (the same element histories in all three ranks).
+fn wide_histories(spec: &OptSpec, rep: &mut Report) {
+    const N: usize = 70;
+    let shapes: [Vec<usize>; 3] = [vec![N], vec![2, 35], vec![2, 5, 7]];
+    let case = Kv::new().put("kind", "wide").put("opt", spec.name());
+    let slot_state = |sh: &Vec<usize>| -> Optimizer {
+        let z = || mk(sh, &vec![0.0; N]);
+        let mut o = spec.lib();
+        o.validate(vec![vec![vec![z(), z()]], vec![vec![z()], vec![z()]]]);
+        o
+    };
+    let mut opts: Vec<Optimizer> = shapes.iter().map(slot_state).collect();
+    let mut w: Vec<Vec<f32>> = (0..3).map(|_| (0..N).map(|e| W0[e % 6]).collect()).collect();
+    let mut lanes: Vec<RefLane> = (0..N)
+        .map(|e| RefLane { w64: W0[e % 6] as f64, s64: St::fresh(), w32: W0[e % 6], s32: St::fresh(), drift: 0.0, ill: false, dead: false, budget: 0.0 })
+        .collect();
+    let mut r = crate::util::Rng::new(0xC03, crate::util::fnv(&spec.name()));
+    for t in 0..24usize {
+        let stepnr = [1, 1, 2, 2, 3, 3, 3, 4, 5, 5, 6, 7, 8, 9, 10, 11, 12, 13, 14, 15, 16, 17, 18, 19][t];
+        let g: Vec<f32> = (0..N).map(|_| G[r.below(G.len())]).collect();
+        for k in 0..3 {
+            rep.transitions += N as u64;
+            let (l, f, b) = SLOTS[0];
+            let mut wt = mk(&shapes[k], &w[k]);
+            let mut gt = mk(&shapes[k], &g);
+            match guard(|| opts[k].update(l, f, b, stepnr, &mut wt, &mut gt)).and_then(|_| flat(&wt).map(|x| x.1)) {
+                Ok(nw) => w[k] = nw,
+                Err(e) => {
+                    rep.violate(format!("C03 {} rank{} panics", spec.kind(), k + 1), e, &case);
+                    return;
+                }
+            }
+        }
+        for k in 1..3 {
+            if let Some(e) = (0..N).find(|&e| w[k][e].to_bits() != w[0][e].to_bits() && !(w[k][e].is_nan() && w[0][e].is_nan())) {
+                rep.violate(
+                    format!("C03 {} rank{} differs from vector slot", spec.kind(), k + 1),
+                    format!("wide tensors {:?} vs vector of {}: step {} element {}: {:e} vs {:e}", shapes[k], N, t + 1, e, w[k][e], w[0][e]),
+                    &case,
+                );
+                return;
+            }
+        }
+        for e in 0..N {
+            if lanes[e].dead {
+                continue;
+            }
+            if let Some(why) = judge(spec, &mut lanes[e], g[e], stepnr, w[0][e]) {
+                rep.violate(format!("C03 {} value", spec.kind()), format!("{}: wide vector of {}, element {}, step {}: {}", spec.name(), N, e, t + 1, why), &case);
+                lanes[e].dead = true;
+            }
+        }
+    }
+    rep.states += (24 * N) as u64;
+}
+
 /// slot isolation: stream A on slot a interleaved with stream B on slot b, all 2^d placements
 fn isolation(spec: &OptSpec, d: usize, rep: &mut Report) {
     let seq_a: Vec<Vec<usize>> = (0..LANES).map(|e| decode(e * 7919 + 13, d)).collect();
@@ -405,6 +463,7 @@ pub fn run(ctx: &Ctx) -> Report {
         let mut r = explore_setting(&sets[*s], d, *p, parts_per);
         if *p == 0 {
             long_histories(&sets[*s], 2048, &mut r);
+            wide_histories(&sets[*s], &mut r);
             isolation(&sets[*s], d.min(5), &mut r);
         }
         r
@@ -446,6 +505,7 @@ pub fn replay(_ctx: &Ctx, case: &Kv) -> Report {
             run_batch(&spec, &seqs, &ss, &mut rep, case);
         }
         "long" => long_histories(&spec, case.usize("steps"), &mut rep),
+        "wide" => wide_histories(&spec, &mut rep),
         _ => isolation(&spec, case.usize("depth"), &mut rep),
     }
     rep
